@@ -9,7 +9,7 @@ open GraphFmt GraphLex
 namespace BipG
 
 /-- `for e in es: G.add_edge(e)` -/
-theorem addEdgesFrom_cons (G : BipG) (e : Int × Int) (es : List (Int × Int)) :
+theorem addEdgesFrom_cons_io (G : BipG) (e : Int × Int) (es : List (Int × Int)) :
     G.addEdgesFrom (e :: es) = match G.addEdge e.1 e.2 with
       | .ok G' => G'.addEdgesFrom es
       | .error x => .error x := by
@@ -23,7 +23,7 @@ theorem addEdgesFrom_append (G : BipG) (es fs : List (Int × Int)) :
   induction es generalizing G with
   | nil => rfl
   | cons e es ih =>
-    simp only [List.cons_append, addEdgesFrom_cons]
+    simp only [List.cons_append, addEdgesFrom_cons_io]
     cases G.addEdge e.1 e.2 with
     | error x => rfl
     | ok G' => exact ih G'
@@ -34,7 +34,7 @@ theorem addEdgesFrom_ok {G G' : BipG} (h : Inv G) {es : List (Int × Int)} (e : 
   induction es generalizing G with
   | nil => cases e; simp [h]
   | cons a es ih =>
-    rw [addEdgesFrom_cons] at e
+    rw [addEdgesFrom_cons_io] at e
     cases ha : G.addEdge a.1 a.2 with
     | error x => rw [ha] at e; cases e
     | ok G₁ =>
@@ -58,14 +58,14 @@ theorem addEdgesFrom_valid {G : BipG} (h : Inv G) {es : List (Int × Int)}
     obtain ⟨G₁, ha⟩ := addEdge_valid (hv a (List.mem_cons_self ..))
     obtain ⟨_, hi, hl, hr, _⟩ := addEdge_ok h ha
     obtain ⟨G', hG'⟩ := ih hi (fun x hx => by rw [hl, hr]; exact hv x (List.mem_cons_of_mem _ hx))
-    exact ⟨G', by rw [addEdgesFrom_cons, ha]; exact hG'⟩
+    exact ⟨G', by rw [addEdgesFrom_cons_io, ha]; exact hG'⟩
 
 theorem addEdgesFrom_err {G : BipG} {es : List (Int × Int)} {x : Err} (e : G.addEdgesFrom es = .error x) :
     x = .valueError := by
   induction es generalizing G with
   | nil => cases e
   | cons a es ih =>
-    rw [addEdgesFrom_cons] at e
+    rw [addEdgesFrom_cons_io] at e
     cases ha : G.addEdge a.1 a.2 with
     | error y => rw [ha] at e; cases e; exact addEdge_err ha
     | ok G₁ => rw [ha] at e; exact ih e
@@ -265,7 +265,7 @@ theorem readCells_bits (G₀ : BipG) (cs : List (Nat × Nat)) (G : BipG) (rest :
   | cons c cs ih =>
     simp only [cellCalls, List.map_cons, List.cons_append, readCells, nextTok, bit]
     by_cases hc : G₀.hasEdge (c.1 : Int) (c.2 : Int) = true
-    · simp only [hc, if_true, List.filter_cons_of_pos, List.map_cons, BipG.addEdgesFrom_cons]
+    · simp only [hc, if_true, List.filter_cons_of_pos, List.map_cons, BipG.addEdgesFrom_cons_io]
       cases G.addEdge (c.1 : Int) (c.2 : Int) with
       | error x => rfl
       | ok G₁ => exact ih G₁
